@@ -904,7 +904,7 @@ func judgeFidelity(r *Run, j *Judged, c *cls) {
 	}
 	// fields the origin never sent must not appear (beyond the cache's own)
 	for k, got := range e.Header {
-		if ignore[k] || k == "Date" || k == "Connection" || names[k] {
+		if ignore[k] || k == "Date" || names[k] {
 			continue
 		}
 		j.fail("C05", "stored-copy-differs", e, "extra-header", "stored response sid=%d carries field %s=%q that the origin never sent", c.B.SID, k, got)
@@ -1519,16 +1519,34 @@ func judgeSWR(r *Run, j *Judged, c *cls) {
 		j.fail("C20", "revalidation-count", e, "unconditional", "background revalidation is not conditional on the stored validators: stored ETag=%q Last-Modified=%q, sent If-None-Match=%q If-Modified-Since=%q", et, lm, u.Req.Header.Get("If-None-Match"), u.Req.Header.Get("If-Modified-Since"))
 	}
 	// timeout: when the origin does not answer, the call is cancelled at spawn+T
-	if u.Ended && (u.ErrKind == "hang-cancel" || u.ErrKind == "ctx") && e.Op.CancelNs == 0 {
+	// (the caller's context ends with the caller's exchange: cancelling it - before the call, or after the
+	// response was returned, as http.Client does when the body is closed - is not the configured timeout)
+	if u.Ended && (u.ErrKind == "hang-cancel" || u.ErrKind == "ctx") {
 		j.count("C20", "timeout-wrong")
 		T := 5 * time.Second
 		if r.Scn.SWRSet && r.Scn.SWRNs > 0 {
 			T = time.Duration(r.Scn.SWRNs)
 		}
+		sub := ""
+		if e.Op.CancelNs != 0 {
+			sub = "caller-cancel"
+		}
 		if u.CancelAt < e.TInv+T || u.CancelAt > max(e.TRet+T, u.TStart) {
-			j.fail("C20", "timeout-wrong", e, "", "background revalidation was cancelled at %s; expected between %s and %s (timeout %s, configured set=%v value=%s)", u.CancelAt, e.TInv+T, e.TRet+T, T, r.Scn.SWRSet, time.Duration(r.Scn.SWRNs))
+			j.fail("C20", "timeout-wrong", e, sub, "background revalidation was cancelled at %s; expected between %s and %s (timeout %s, configured set=%v value=%s)", u.CancelAt, e.TInv+T, e.TRet+T, T, r.Scn.SWRSet, time.Duration(r.Scn.SWRNs))
 		}
 		r.probe("swr-timeout-fired")
+	}
+	// the background request lives until its response has been taken in or the timeout elapses: a context that
+	// ends while the body of the reply is still arriving loses the reply
+	if u.BodyCancelAt > 0 {
+		j.count("C20", "timeout-wrong")
+		T := 5 * time.Second
+		if r.Scn.SWRSet && r.Scn.SWRNs > 0 {
+			T = time.Duration(r.Scn.SWRNs)
+		}
+		if at := u.BodyCancelAt - 1; at < e.TInv+T {
+			j.fail("C20", "timeout-wrong", e, "reply-unread", "the context of background revalidation #%d ended at %s while the body of its reply was still being read; the timeout (%s) elapses at %s at the earliest", u.ID, at, T, e.TInv+T)
+		}
 	}
 	if !u.Ended {
 		j.count("C20", "timeout-wrong")
